@@ -15,6 +15,8 @@ pub mod h;
 pub mod h2;
 #[cfg(kani)]
 pub mod h3;
+#[cfg(all(kani, loom))]
+pub mod hs;
 #[cfg(kani)]
 mod cases;
 
@@ -27,6 +29,27 @@ macro_rules! harness {
         #[kani::stub(alloc::alloc::alloc, crate::shim::shim_alloc)]
         #[kani::stub(alloc::alloc::dealloc, crate::shim::shim_dealloc)]
         #[kani::stub(alloc::alloc::realloc, crate::shim::shim_realloc)]
+        #[kani::stub(alloc::alloc::dealloc_nonnull, crate::shim::shim_dealloc_nonnull)]
+        #[kani::stub(alloc::alloc::realloc_nonnull, crate::shim::shim_realloc_nonnull)]
+        fn $name() {
+            $body
+        }
+    };
+}
+
+/// Same, plus the type-dispatch stub (see `shim::type_eq_stub`) for harnesses that call
+/// `to_lean_string()`.
+#[macro_export]
+macro_rules! harness_tls {
+    ($name:ident, $unwind:literal, $body:expr) => {
+        #[kani::proof]
+        #[kani::unwind($unwind)]
+        #[kani::stub(alloc::alloc::alloc, crate::shim::shim_alloc)]
+        #[kani::stub(alloc::alloc::dealloc, crate::shim::shim_dealloc)]
+        #[kani::stub(alloc::alloc::realloc, crate::shim::shim_realloc)]
+        #[kani::stub(alloc::alloc::dealloc_nonnull, crate::shim::shim_dealloc_nonnull)]
+        #[kani::stub(alloc::alloc::realloc_nonnull, crate::shim::shim_realloc_nonnull)]
+        #[kani::stub(castaway::utils::type_eq_non_static, crate::shim::type_eq_stub)]
         fn $name() {
             $body
         }
